@@ -8,8 +8,8 @@ from . import small as SM
 CONFIG = {
     'C01': dict(streams=[('td_class', 480), ('td_wf', 880), ('td_coarse', 320), ('fail_wf', 200), ('panic', 240)], keep='om'),
     'C02': dict(streams=[('td_exact', 880), ('td_wf', 480)], keep='ov'),
-    'C03': dict(streams=[('bu_wf', 880), ('mixed_wf', 320), ('newreq', 160), ('fail_bu', 200), ('mid_session', 160)], keep='ovm'),
-    'C04': dict(streams=[('bu_wf', 1120), ('mixed_wf', 160), ('newreq', 160), ('abort_bu', 240)], keep='ov'),
+    'C03': dict(streams=[('bu_class', 320), ('bu_wf', 720), ('mixed_wf', 320), ('newreq', 160), ('fail_bu', 200), ('mid_session', 160)], keep='ovm'),
+    'C04': dict(streams=[('bu_class', 320), ('bu_wf', 960), ('mixed_wf', 160), ('newreq', 160), ('abort_bu', 240)], keep='ov'),
     'C05': dict(streams=[('inj_hidden', 1200), ('siblings', 240), ('td_wf', 160), ('same_session', 80)], keep='om'),
     'C06': dict(streams=[('inj_overlap', 1200), ('td_wf', 160), ('same_session', 80), ('newreq', 160)], keep='om'),
     'C07': dict(streams=[('inj_cycle', 1040), ('reorder_cycle', 240), ('newreq', 160)], keep='ov'),
@@ -62,9 +62,9 @@ def make_case(rng, stream, big=False):
     exact = stream == 'td_exact'
     fail = stream in ('fail_wf', 'failstamp', 'fail_bu', 'fail_mixed')
     coarse = stream == 'td_coarse'
-    p = P.gen_wf_program(rng, nt, exact_only=exact, allow_fail=fail, coarse_writers=coarse, norepeat=(stream == 'td_class'))
+    p = P.gen_wf_program(rng, nt, exact_only=exact, allow_fail=fail, coarse_writers=coarse, norepeat=(stream in ('td_class', 'bu_class')))
     mode = 'td'
-    if stream in ('bu_wf', 'fail_bu'): mode = 'bu'
+    if stream in ('bu_wf', 'fail_bu', 'bu_class'): mode = 'bu'
     if stream == 'fail_mixed': mode = 'mixed'
     if stream == 'mixed_wf': mode = 'mixed'
     if stream == 'inj_hidden':
